@@ -121,6 +121,7 @@ func (c06) ID() string        { return "C06" }
 func (c06) CoqModule() string { return "Check_C06" }
 func (c06) Rule() string {
 	return "consumes lists over concrete types, type/*, */*, entries with parameters, empty, per operation or global, with/without an API default, " +
+		"declared entries that spell the API default nearly (the default extended by a few characters, with parameters, a proper prefix of it, types ending like it) with requests of the default type and of the near-miss type; " +
 		"consumers registered for a subset; Content-Type from a grammar (case, parameters, OWS, quoted strings, duplicate lines, absent) plus malformed values " +
 		"plus values with commas (inside and outside quoted strings, leading, trailing, several media types in one value, several header lines, an empty first line); " +
 		"body signalled by Content-Length, chunked (ContentLength -1), an explicit Content-Length: 0 header, an empty chunked stream, or absent; " +
@@ -197,7 +198,126 @@ func (c06) Enumerate(tier string) []any {
 			}
 		}
 	}
+	// near-miss spellings of the API default as declared entries: the default is added all the same (the list names the default
+	// only through an entry that IS the default, parameters aside), so a body of the default type is decoded by the default's consumer
+	for _, def := range []Bs{"application/json", "text/csv", ""} {
+		base := string(def)
+		if base == "" {
+			base = "application/json"
+		}
+		for _, e := range c06NearMiss(base) {
+			key := c06EntryKey(e)
+			for _, l := range [][]Bs{{Bs(e)}, {"text/plain", Bs(e)}} {
+				for _, ct := range []string{base, key, "image/png"} {
+					for _, b := range []string{"cl", "none"} {
+						out = append(out, c06In{Declared: l, Default: def, Registered: []Bs{"application/json", "text/plain", "text/csv", Bs(key)}, Method: "POST",
+							Body: b, CT: []Bs{Bs(ct)}})
+					}
+				}
+			}
+		}
+	}
 	return out
+}
+
+// c06NearMiss: declared entries whose spelling comes close to the media type base without being it: base extended by a few
+// characters (other registered media types look like that: application/json-patch+json, application/json-seq, application/jsonl,
+// application/json5), such an entry with parameters, base itself with parameters, a proper prefix of base, media types whose
+// spelling ends with base or with its subtype (structured suffixes: application/merge-patch+json). All in lower case.
+func c06NearMiss(base string) []string {
+	var out []string
+	for _, s := range []string{"-patch+json", "-seq", "l", "5", "x", "+x", ".v2"} {
+		out = append(out, base+s)
+	}
+	out = append(out, base+"-seq; charset=utf-8", base+"x;version=1", base+"; charset=utf-8", base+";version=1")
+	if i := strings.IndexByte(base, '/'); i > 0 {
+		typ, sub := base[:i], base[i+1:]
+		if len(sub) > 1 {
+			out = append(out, base[:len(base)-1])
+		}
+		if len(sub) > 3 {
+			out = append(out, base[:len(base)-2])
+		}
+		out = append(out, typ+"/merge-patch+"+sub, typ+"/x-"+sub, typ+"/vnd.api+"+sub, "x"+base, "x-"+typ+"/"+sub)
+	}
+	return out
+}
+
+// c06EntryKey: the media type an entry names (cut at its first semicolon)
+func c06EntryKey(e string) string { return strings.SplitN(e, ";", 2)[0] }
+
+// c06IsNear: the entry names another media type than base whose spelling begins or ends like base (or base like it)
+func c06IsNear(e, base string) bool {
+	k := strings.ToLower(c06EntryKey(e))
+	base = strings.ToLower(base)
+	if base == "" || k == base || strings.Contains(k, "*") {
+		return false
+	}
+	sub := base[strings.IndexByte(base, '/')+1:]
+	return strings.HasPrefix(k, base) || strings.HasPrefix(base, k) || strings.HasSuffix(k, sub)
+}
+
+func c06HasNear(declared []Bs, base Bs) bool {
+	for _, e := range declared {
+		if c06IsNear(string(e), string(base)) {
+			return true
+		}
+	}
+	return false
+}
+
+// c06NearDeclared: the declared list with one or two near-miss spellings of base put in (in place of the list, before it or
+// after it) and the media types a consumer should be registered for so that the new entries can be served.
+func c06NearDeclared(r *rand.Rand, base string, declared []Bs) ([]Bs, []Bs) {
+	nm := c06NearMiss(base)
+	var add, reg []Bs
+	for n := 1 + r.Intn(2); n > 0; n-- {
+		e := nm[r.Intn(len(nm))]
+		if len(add) == 1 && string(add[0]) == e {
+			continue
+		}
+		add = append(add, Bs(e))
+		if r.Intn(3) != 0 {
+			reg = append(reg, Bs(c06EntryKey(e)))
+		}
+	}
+	switch r.Intn(4) {
+	case 0:
+		return append(append([]Bs{}, declared...), add...), reg
+	case 1:
+		return append(add, declared...), reg
+	}
+	return add, reg
+}
+
+// c06NearHeader: a Content-Type naming base or the media type of one of the near-miss entries, in the spellings of the grammar
+func c06NearHeader(r *rand.Rand, declared []Bs, base string) []Bs {
+	targets := []string{base, base}
+	for _, e := range declared {
+		if c06IsNear(string(e), base) {
+			targets = append(targets, c06EntryKey(string(e)))
+		}
+	}
+	v := c06Case(r, targets[r.Intn(len(targets))])
+	if r.Intn(3) == 0 {
+		v += []string{"; charset=utf-8", ";charset=UTF-8", " ; version=1", "; " + c06Charset(r)}[r.Intn(4)]
+	}
+	return []Bs{Bs(v)}
+}
+
+func c06AddRegistered(reg []Bs, more ...Bs) []Bs {
+	for _, m := range more {
+		found := false
+		for _, x := range reg {
+			if x == m {
+				found = true
+			}
+		}
+		if !found {
+			reg = append(reg, m)
+		}
+	}
+	return reg
 }
 
 var c06FormTypes = []string{"application/x-www-form-urlencoded", "multipart/form-data"}
@@ -420,6 +540,33 @@ func c06EnumerateHist() []any {
 			out = append(out, in)
 		}
 	}
+	// operations of one path whose lists spell the API default nearly: the default itself, the default extended, the default
+	// extended with parameters, the structured-suffix type, nothing; a request of the default type and of the extended type to both
+	for _, def := range []string{"application/json", "text/csv"} {
+		i := strings.IndexByte(def, '/')
+		near := []c06Op{
+			{Method: "PUT", Path: "/x", Declared: []Bs{Bs(def + "-seq")}},
+			{Method: "PATCH", Path: "/x", Declared: []Bs{Bs(def)}},
+			{Method: "POST", Path: "/x", Declared: []Bs{"text/plain", Bs(def + "l; charset=utf-8")}},
+			{Method: "DELETE", Path: "/x", Declared: []Bs{Bs(def[:i] + "/merge-patch+" + def[i+1:])}},
+			{Method: "GET", Path: "/x", Declared: []Bs{}},
+		}
+		for a := 0; a < len(near); a++ {
+			for b := 0; b < len(near); b++ {
+				if a == b {
+					continue
+				}
+				for _, ct := range []string{def, def + "-seq"} {
+					n++
+					in := c06In{Kind: "hist", Ops: near, Default: Bs(def),
+						Registered: []Bs{"application/json", "text/plain", "text/csv", Bs(def + "-seq"), Bs(def + "l")}}
+					body := []string{"cl", "chunked"}[n%2]
+					in.Steps = []c06Step{{Op: a, CT: []Bs{Bs(ct)}, Body: body, Entry: n % 3}, {Op: b, CT: []Bs{Bs(ct)}, Body: body, Entry: (n / 3) % 3}}
+					out = append(out, in)
+				}
+			}
+		}
+	}
 	return out
 }
 
@@ -445,9 +592,17 @@ func c06GenHist(r *rand.Rand) c06In {
 		if op.Params == "form" && r.Intn(2) == 0 {
 			op.Declared = c06FormDeclared(r)
 		}
+		if r.Intn(4) == 0 { // near-miss spellings of THIS API's default
+			var reg []Bs
+			op.Declared, reg = c06NearDeclared(r, c06NearBase(in.Default), op.Declared)
+			in.Registered = c06AddRegistered(in.Registered, reg...)
+		}
 		in.Ops = append(in.Ops, op)
 	}
 	var listed []string
+	if in.Default != "" { // the default is on every list
+		listed = append(listed, string(in.Default))
+	}
 	for _, op := range in.Ops {
 		for _, e := range op.Declared {
 			if !strings.Contains(string(e), "*") {
@@ -498,7 +653,18 @@ func (c06) Gen(r0 *rand.Rand, tier string, i int) any {
 	if in.Params == "form" && r0.Intn(2) == 0 {
 		in.CT = c06FormHeader(r0)
 	}
+	if base := c06NearBase(in.Default); c06HasNear(in.Declared, Bs(base)) && r0.Intn(3) != 0 {
+		// against near-miss entries: mostly a request of the default type or of the near-miss type itself
+		in.CT = c06NearHeader(r0, in.Declared, base)
+	}
 	return in
+}
+
+func c06NearBase(def Bs) string {
+	if def == "" {
+		return "application/json"
+	}
+	return string(def)
 }
 
 func c06FormDeclared(r *rand.Rand) []Bs {
@@ -555,6 +721,20 @@ func c06Config(r *rand.Rand) c06In {
 	}
 	if in.Params == "form" && r.Intn(3) != 0 {
 		in.Declared = c06FormDeclared(r)
+	}
+	// one configuration in five declares near-miss spellings of the API default (of JSON when there is no default) - drawn
+	// last as well
+	if r.Intn(5) == 0 {
+		base := string(in.Default)
+		if base == "" {
+			base = "application/json"
+		}
+		var reg []Bs
+		in.Declared, reg = c06NearDeclared(r, base, in.Declared)
+		if r.Intn(4) != 0 { // mostly a consumer for the default itself
+			reg = append(reg, Bs(base))
+		}
+		in.Registered = c06AddRegistered(in.Registered, reg...)
 	}
 	return in
 }
@@ -1234,6 +1414,9 @@ func (c06) Category(inAny any, obsAny any) (string, bool) {
 	}
 	if params {
 		lst += "+params"
+	}
+	if c06HasNear(in.Declared, Bs(c06NearBase(in.Default))) {
+		lst += "+near" // a declared entry spells the default (JSON when there is none) nearly
 	}
 	if in.Default == "" {
 		lst += "/nodefault"
